@@ -83,6 +83,10 @@ CORPUS = [
     {'ports': [{'value': 5}, {'value': 1}, {'value': 0}],
      'script': [[0, 'expr', 2, 'ADD($p0, $p1)'], [500, 'disable', 0], [800, 'source', 1, 9], [1200, 'enable', 0]],
      'tick_ms': 50, 'settle_ms': 6000, 'extras': True},
+    # F16: follower p1 = $p0 disabled while its own write is in flight, re-enabled during a pass after its turn
+    {'ports': [{'value': 1}, {'value': 1, 'write_ms': 200}, {'value': 0, 'read_ms': 100}],
+     'script': [[0, 'expr', 1, '$p0'], [500, 'source', 0, 2], [700, 'disable', 1], [900, 'source', 0, 1], [1100, 'enable', 1]],
+     'tick_ms': 50, 'settle_ms': 6000, 'extras': True},
     # F13: write transform MUL($, 2) on a follower of p0; p0: 3 -> 6: the short-cut compares 6 with the read-back 6
     {'ports': [{'value': 3}, {'value': 0}],
      'script': [[0, 'twrite', 1, 'MUL($, 2)'], [20, 'expr', 1, '$p0'], [600, 'source', 0, 6]],
@@ -232,7 +236,8 @@ def check_batch(ctx, res, scenarios, tag):
             kinds = sorted({c[1] for c in sc['script']})
             res['violations'].append({
                 'key': {'kind': 'not-following-at-quiescence', 'uses_enable_disable': bool(sc.get('extras')),
-                        'slow_read': any(p.get('read_ms') for p in sc['ports'])},
+                        'slow_read': any(p.get('read_ms') for p in sc['ports']),
+                        'expression_port_disabled_while_busy': bool(r.get('disabled_busy'))},
                 'what': 'quiescent hub, but a port does not hold the value of its expression: final (last, driver) = %r, '
                         'expressions = %r' % (r['final'], r['exprs']),
                 'case': sc, 'observed': {'final': r['final'], 'exprs': r['exprs'], 'log': r['log'][-25:]},
